@@ -92,7 +92,7 @@ theorem dElems_wList (cfg : Cfg) (ver : Ver) (e : Endian) (el : Ty) (vs : List V
   | struct x ms =>
     simp only [dElems]
     exact dVec_wList cfg ver e _ _ (by omega) vs hsp hwf hrt hlim pos rest
-  | union d bs =>
+  | union a d bs =>
     simp only [dElems]
     exact dVec_wList cfg ver e _ _ (by omega) vs hsp hwf hrt hlim pos rest
   | seq _ => simp [Ty.elemOk] at hel
